@@ -317,6 +317,8 @@ def explore(run_once, preemption_bound=2, max_runs=5000, allow_ticks=False):
 
 
 # ---------------------------------------------------------------- primitive twins
+YIELD_AFTER_RELEASE = False     # opt-in (obsprog sets it for the observer checks); see Lock._after_release
+
 def _sched() -> Scheduler:
     if CUR is None:
         raise RuntimeError("no scheduler active")
@@ -363,6 +365,14 @@ class Lock:
             raise RuntimeError("release unlocked lock")
         self.owner = None
         self.count = 0
+        self._after_release()
+
+    def _after_release(self):
+        """A scheduling point right after a lock became free: code that runs between a release and the thread's next
+        synchronisation operation (state updated outside the critical section) can be overtaken by the other threads."""
+        s = CUR
+        if YIELD_AFTER_RELEASE and self.count == 0 and s is not None and not s.killed and s.me() is not None:
+            s.yield_point(f"{self._kind}.released")
 
     def locked(self):
         return self.owner is not None
@@ -413,6 +423,7 @@ class RLock(Lock):
         self.count -= 1
         if self.count == 0:
             self.owner = None
+        self._after_release()
 
     def _is_owned(self):
         s = CUR
